@@ -209,3 +209,51 @@ Qed.
 
 Lemma rebuild_bool fuel p : get_dt (S fuel) p (PDict [($"type", PStr $"bool")]) = Ok (Some XBool).
 Proof. start_get leaf_bool. reflexivity. Qed.
+
+Lemma rebuild_blob fuel p a b j : wfx (XBlob a b) -> lossless (XBlob a b) -> xt_export (XBlob a b) = Ok j ->
+  get_dt (S fuel) p j = Ok (Some (XBlob a b)).
+Proof.
+  intros (Ha & Hb & Hle) Hl E. cbn in Hl. cbn [xt_export] in E. injection E as <-.
+  destruct (Z.eqb_spec b 0) as [|_]; [contradiction|].
+  destruct (Z.eqb_spec a 0) as [->|_]; cbn [negb ent app]; start_get leaf_blob; unfold mk_blob, none_or; cbv beta iota;
+    rewrite Ha, Hb; cbn [as_z bind]; rewrite Hle; reflexivity.
+Qed.
+
+Lemma rebuild_string fuel p a b u t j : wfx (XString a b u t) -> lossless (XString a b u t) ->
+  xt_export (XString a b u t) = Ok j -> get_dt (S fuel) p j = Ok (Some (XString a b u false)).
+Proof.
+  intros (Ha & Hb & Hle & _) Hl E. cbn in Hl. cbn [xt_export] in E. injection E as <-.
+  destruct (Z.eqb_spec b UNL) as [->|Hb']; destruct (Z.eqb_spec a 0) as [->|Ha']; try (destruct Hl; contradiction);
+    destruct u; cbn [negb ent app]; start_get leaf_string; unfold mk_string, none_or; cbv beta iota;
+    cbn [py_truthy Z.eqb negb]; rewrite ?Ha, ?Hb; cbn [as_z as_b bind bool_call]; rewrite ?Ha, ?Hb; cbn [as_z as_b bind bool_call];
+    rewrite Hle; reflexivity.
+Qed.
+
+Lemma rebuild_enum fuel p n ms j : wfx (XEnum n ms) -> xt_export (XEnum n ms) = Ok j ->
+  get_dt (S fuel) p j = Ok (Some (XEnum p ms)).
+Proof.
+  intros (He & Hne) E. cbn [xt_export] in E. injection E as <-.
+  remember (map (fun q : str * Z => (fst q, PInt (snd q))) ms) as m eqn:Em.
+  start_get leaf_enum. unfold mk_enum. rewrite He. cbn [bind]. destruct ms; [contradiction|reflexivity].
+Qed.
+
+Ltac split_feq C H c :=
+  match type of C with
+  | _ = true => idtac
+  | _ = false => apply negb_false_iff in C; apply feq_eq in C; [subst|exact I]
+  end.
+
+Lemma rebuild_float fuel p mn mx a r u f j : wfx (XFloat mn mx a r u f) -> xt_export (XFloat mn mx a r u f) = Ok j ->
+  get_dt (S fuel) p j = Ok (Some (XFloat mn mx a r u f)).
+Proof.
+  intros (Hmn & Hmx & Ha & Hr & Hu & Hf & Hp & Hle) E. cbn [xt_export] in E. injection E as <-.
+  destruct (fne a fzero) eqn:Ca; [|apply negb_false_iff in Ca; pose proof (feq_zero_fix a Ca Ha); subst a];
+  (destruct (negb (str_eqb f fmt0)) eqn:Cf; [|apply negb_false_iff, str_eqb_eq in Cf; subst f]);
+  (destruct (fne mx fmaxval) eqn:Cmx; [|apply negb_false_iff in Cmx; apply feq_eq in Cmx; [subst mx|exact I]]);
+  (destruct (fne mn (fopp fmaxval)) eqn:Cmn; [|apply negb_false_iff in Cmn; apply feq_eq in Cmn; [subst mn|exact I]]);
+  (destruct (fne r rel0) eqn:Cr; [|apply negb_false_iff in Cr; apply feq_eq in Cr; [subst r|exact I]]);
+  (destruct (negb (str_eqb u [])) eqn:Cu; [|apply negb_false_iff, str_eqb_eq in Cu; subst u]);
+  cbn [ent app]; start_get leaf_double; unfold mk_float, float_props; cbv beta iota;
+  rewrite ?Hmn, ?Hmx, ?Ha, ?Hr, ?Hu, ?Hf; cbn [as_f as_s bind]; rewrite ?Hmn, ?Hmx, ?Ha, ?Hr, ?Hu, ?Hf; cbn [as_f as_s bind];
+  rewrite Hp; cbv beta iota; rewrite Hle; reflexivity.
+Qed.
